@@ -134,8 +134,10 @@ def run_sequence(acc, rng, levels, nroots, nchild, dim, nops, tag):
                 now += rng.random()
                 if u.velocity is None or field == "vel_new":
                     u.velocity = [rng.choice([0.0, 1.0, -0.5, rng.random()]) for _ in range(dim)]
+                    if not any(u.velocity) and rng.random() < 0.7:
+                        u.velocity[0] = 1.0     # (a velocity of exactly zero is still a velocity: kept in 30 % of these draws)
                     if not any(u.velocity):
-                        u.velocity[0] = 1.0
+                        acc.count("mutations_to_zero_velocity")
                 else:
                     u.velocity[rng.randrange(dim)] = rng.choice([1.0, 0.25, rng.random() + 0.1])
                 if u.time_stamp is None or field == "ts_new":
